@@ -172,6 +172,15 @@ Proof.
   destruct G as [G|[G|G]]; [exact G|lia|lia].
 Qed.
 
+Lemma frame_scan_all st ans : frame_scan st ans = VAll <-> frame_ok st ans = true.
+Proof.
+  unfold frame_ok. induction ans as [|[data wkc] r IH]; cbn [frame_scan forallb]; [tauto|].
+  unfold ans_ok at 1. cbn [fst snd].
+  destruct (wkc =? 1); cbn [negb andb]; [|split; discriminate].
+  destruct (al_error data); cbn [negb andb]; [split; discriminate|].
+  destruct (al_state data =? st); cbn [andb]; [exact IH|split; discriminate].
+Qed.
+
 (* is_state says "yes" only after a complete round: one check per member, in order, and every
    answer of every frame of the round named the state; it also stayed within the time limit *)
 Lemma is_state_true fuel : forall c subs resps used rest fs u, (14 <= t_room c)%nat ->
@@ -190,7 +199,8 @@ Proof.
   - destruct (push_checks_spec _ _ _ _ _ _ _ Ep) as (k & A & B & Cc & D & F & G).
     fold (check_frame ds) in H. destruct resps as [|ans more]; [discriminate|].
     destruct (t_limit c <=? S used)%nat eqn:EL; [discriminate|].
-    destruct (frame_ok (t_desired c) ans) eqn:EF; [|destruct (frame_error (t_desired c) ans); discriminate].
+    destruct (frame_scan (t_desired c) ans) eqn:EF0; try discriminate.
+    assert (EF : frame_ok (t_desired c) ans = true) by (apply frame_scan_all; exact EF0).
     destruct (is_state f c rs more (S used)) as [[[r0 rs0] fs0] u0] eqn:EI.
     inversion H; subst r0 rs0 fs u0; clear H.
     destruct (IH _ _ _ _ _ _ _ R EI) as (answers & A1 & A2 & A3 & A4 & A5 & A6).
@@ -212,8 +222,7 @@ Proof.
     destruct cnt as [|cnt]; [inversion H; subst; cbn; lia|].
     destruct resps as [|ans more]; [inversion H; subst; cbn; lia|].
     destruct (t_limit c <=? S used)%nat; [inversion H; subst; cbn; lia|].
-    destruct (frame_ok (t_desired c) ans);
-      [|destruct (frame_error (t_desired c) ans); inversion H; subst; cbn; lia].
+    destruct (frame_scan (t_desired c) ans); try (inversion H; subst; cbn; lia).
     destruct (is_state f c rs more (S used)) as [[[r0 rs0] fs0] u0] eqn:EI.
     inversion H; subst. rewrite (IH _ _ _ _ _ _ _ _ EI). cbn [length]. lia.
 Qed.
@@ -227,10 +236,11 @@ Proof.
   destruct cnt as [|cnt]; [discriminate|].
   destruct resps as [|ans more]; [discriminate|].
   destruct (t_limit c <=? S used)%nat eqn:EL; [discriminate|]. apply Nat.leb_gt in EL.
-  destruct (frame_ok (t_desired c) ans).
+  destruct (frame_scan (t_desired c) ans).
   - destruct (is_state f c rs more (S used)) as [[[r0 rs0] fs0] u0] eqn:EI.
     inversion H; subst. destruct (IH _ _ _ _ _ _ _ EI). lia.
-  - destruct (frame_error (t_desired c) ans); [discriminate|]. inversion H; subst. lia.
+  - inversion H; subst. lia.
+  - discriminate.
 Qed.
 
 (* enough fuel: one level per member plus one *)
@@ -243,61 +253,72 @@ Proof.
   destruct (push_checks_spec _ _ _ _ _ _ _ Ep) as (k & A & B & Cc & D & F & G).
   destruct resps as [|ans more]; [cbn; discriminate|].
   destruct (t_limit c <=? S used)%nat; [cbn; discriminate|].
-  destruct (frame_ok (t_desired c) ans); [|destruct (frame_error (t_desired c) ans); cbn; discriminate].
+  destruct (frame_scan (t_desired c) ans); try (cbn; discriminate).
   destruct (is_state f c rs more (S used)) as [[[r0 rs0] fs0] u0] eqn:EI. cbn [fst].
   assert (X : fst (fst (fst (is_state f c rs more (S used)))) <> Hang).
   { apply IH; [exact R|]. subst rs. rewrite skipn_length. lia. }
   rewrite EI in X. exact X.
 Qed.
 
-(* what "the frame is fine" means, and what the error verdict means *)
+(* what "the frame is fine" means, and what the failing verdicts mean *)
 Lemma frame_ok_spec st ans : frame_ok st ans = true <->
-  Forall (fun a => al_error (fst a) = false /\ al_state (fst a) = st) ans.
+  Forall (fun a => snd a = 1 /\ al_error (fst a) = false /\ al_state (fst a) = st) ans.
 Proof.
   unfold frame_ok. rewrite forallb_forall, Forall_forall. unfold ans_ok.
   split; intros H a Ha; specialize (H a Ha).
-  - apply andb_true_iff in H as [H1 H2]. apply negb_true_iff in H1. apply N.eqb_eq in H2. auto.
-  - destruct H as [H1 H2]. rewrite H1, H2, N.eqb_refl. reflexivity.
+  - apply andb_true_iff in H as [H H2]. apply andb_true_iff in H as [H0 H1].
+    apply negb_true_iff in H1. apply N.eqb_eq in H2, H0. auto.
+  - destruct H as (H0 & H1 & H2). rewrite H0, H1, H2, N.eqb_refl. cbn. apply N.eqb_refl.
 Qed.
 
-Lemma frame_error_spec st ans : frame_error st ans = true <->
-  exists pre a post, ans = pre ++ a :: post /\ frame_ok st pre = true /\ al_error (fst a) = true.
+(* a failing verdict comes from the first answer that is not fine: every answer before it was *)
+Lemma frame_scan_fail st ans e : frame_scan st ans = VFail e <->
+  exists pre a post, ans = pre ++ a :: post /\ frame_ok st pre = true /\
+    ((snd a <> 1 /\ e = TWkc 1 (snd a)) \/ (snd a = 1 /\ al_error (fst a) = true /\ e = TStateTransition)).
 Proof.
-  induction ans as [|x r IH]; cbn [frame_error].
+  induction ans as [|[data wkc] r IH]; cbn [frame_scan].
   - split; [discriminate|]. intros (pre & a & post & H & _). destruct pre; discriminate.
-  - destruct (al_error (fst x)) eqn:Ex.
-    + split; [|reflexivity]. intros _. exists [], x, r. repeat split; auto.
-    + destruct (al_state (fst x) =? st) eqn:Es.
-      * rewrite IH. split; intros (pre & a & post & H1 & H2 & H3).
-        -- exists (x :: pre), a, post. subst r. repeat split; auto.
-           unfold frame_ok in *. cbn [forallb]. unfold ans_ok at 1. rewrite Ex, Es. exact H2.
-        -- destruct pre as [|y pre]; cbn [app] in H1; injection H1 as -> ->; [congruence|].
-           exists pre, a, post. repeat split; auto.
-           unfold frame_ok in H2. cbn [forallb] in H2. apply andb_true_iff in H2 as [_ H2]. exact H2.
-      * split; [discriminate|]. intros (pre & a & post & H1 & H2 & H3).
-        destruct pre as [|y pre]; cbn [app] in H1; injection H1 as -> ->; [congruence|].
-        unfold frame_ok in H2. cbn [forallb] in H2. apply andb_true_iff in H2 as [H2 _].
-        unfold ans_ok in H2. rewrite Es, andb_false_r in H2. discriminate.
+  - destruct (wkc =? 1) eqn:Ew; cbn [negb].
+    + apply N.eqb_eq in Ew. subst wkc. destruct (al_error data) eqn:Ex.
+      * split.
+        -- intros H. injection H as <-. exists [], (data, 1), r. repeat split; auto.
+        -- intros (pre & a & post & H1 & H2 & H3). destruct pre as [|y pre]; cbn [app] in H1.
+           ++ injection H1 as <- <-. cbn [fst snd] in H3. destruct H3 as [[H3 _]|(_ & _ & ->)]; [congruence|reflexivity].
+           ++ injection H1 as <- ->. unfold frame_ok in H2. cbn [forallb] in H2. apply andb_true_iff in H2 as [H2 _].
+              unfold ans_ok in H2. cbn [fst snd] in H2. rewrite Ex in H2. cbn in H2. discriminate.
+      * destruct (al_state data =? st) eqn:Es.
+        -- rewrite IH. split; intros (pre & a & post & H1 & H2 & H3).
+           ++ exists ((data, 1) :: pre), a, post. subst r. repeat split; auto.
+              unfold frame_ok in *. cbn [forallb]. unfold ans_ok at 1. cbn [fst snd]. rewrite Ex, Es. exact H2.
+           ++ destruct pre as [|y pre]; cbn [app] in H1.
+              ** injection H1 as <- <-. cbn [fst snd] in H3. destruct H3 as [[H3 _]|(_ & H3 & _)]; congruence.
+              ** injection H1 as <- ->. exists pre, a, post. repeat split; auto.
+                 unfold frame_ok in H2. cbn [forallb] in H2. apply andb_true_iff in H2 as [_ H2]. exact H2.
+        -- split; [discriminate|]. intros (pre & a & post & H1 & H2 & H3).
+           destruct pre as [|y pre]; cbn [app] in H1.
+           ++ injection H1 as <- <-. cbn [fst snd] in H3. destruct H3 as [[H3 _]|(_ & H3 & _)]; congruence.
+           ++ injection H1 as <- ->. unfold frame_ok in H2. cbn [forallb] in H2. apply andb_true_iff in H2 as [H2 _].
+              unfold ans_ok in H2. cbn [fst snd] in H2. rewrite Es, andb_false_r in H2. discriminate.
+    + apply N.eqb_neq in Ew. split.
+      * intros H. injection H as <-. exists [], (data, wkc), r. repeat split; auto.
+      * intros (pre & a & post & H1 & H2 & H3). destruct pre as [|y pre]; cbn [app] in H1.
+        -- injection H1 as <- <-. cbn [fst snd] in H3. destruct H3 as [[_ ->]|[H3 _]]; [reflexivity|congruence].
+        -- injection H1 as <- ->. unfold frame_ok in H2. cbn [forallb] in H2. apply andb_true_iff in H2 as [H2 _].
+           unfold ans_ok in H2. cbn [fst snd] in H2. apply N.eqb_neq in Ew. rewrite Ew in H2. discriminate.
 Qed.
 
-Lemma frame_error_not_ok st ans : frame_error st ans = true -> frame_ok st ans = false.
-Proof.
-  induction ans as [|x r IH]; cbn [frame_error]; [discriminate|]. unfold frame_ok. cbn [forallb]. unfold ans_ok at 1.
-  destruct (al_error (fst x)); [reflexivity|]. destruct (al_state (fst x) =? st); [|reflexivity].
-  intros H. cbn [negb andb]. apply IH. exact H.
-Qed.
-
-(* a status answer with the error indication, seen before the timeout and before any answer
-   naming another state, ends the round - and with it the transition - with Err(StateTransition) *)
-Theorem is_state_error f c subs ans more used r rest fs u :
+(* a status answer that fails - not serviced by exactly one device, or carrying the error
+   indication - seen before the timeout and before an answer naming another state, ends the round
+   and with it the transition with that error *)
+Theorem is_state_error f c subs ans more used r rest fs u e :
   is_state (S f) c subs (ans :: more) used = (r, rest, fs, u) ->
-  fs <> [] -> (S used < t_limit c)%nat -> frame_error (t_desired c) ans = true ->
-  r = Err TStateTransition.
+  fs <> [] -> (S used < t_limit c)%nat -> frame_scan (t_desired c) ans = VFail e ->
+  r = Err e.
 Proof.
   intros H NE L E. cbn [is_state] in H.
   destruct (push_checks (t_room c) 0 subs 0) as [[ds rs] cnt].
   destruct cnt as [|cnt]; [inversion H; subst; congruence|].
-  apply Nat.leb_gt in L. rewrite L, (frame_error_not_ok _ _ E), E in H. inversion H. reflexivity.
+  apply Nat.leb_gt in L. rewrite L, E in H. inversion H. reflexivity.
 Qed.
 
 (* success of the wait = some is_state round said yes *)
@@ -331,10 +352,11 @@ Proof.
       destruct cnt as [|cnt]; [discriminate|].
       destruct resps as [|ans more]; [discriminate|].
       destruct (t_limit c <=? S used)%nat; [discriminate|].
-      destruct (frame_ok (t_desired c) ans).
+      destruct (frame_scan (t_desired c) ans).
       - destruct (is_state fu c rs1 more (S used)) as [[[r0 rs0] fs1] u0] eqn:EI.
         inversion H; subst. destruct (IHf _ _ _ _ _ _ EI) as (cs & ->). exists (ans :: cs). reflexivity.
-      - destruct (frame_error (t_desired c) ans); [discriminate|]. inversion H; subst. exists [ans]. reflexivity. }
+      - inversion H; subst. exists [ans]. reflexivity.
+      - discriminate. }
     destruct Cn as (consumed & ->).
     exists (consumed ++ before), answers, after, (fs0 ++ fsb), fsl. subst rs fs'.
     rewrite <- !app_assoc. repeat split; auto.
